@@ -68,6 +68,9 @@ def worker(args):
             out["inputs"] = engine.impl_inputs(B, case)
             ocp = B.ocp
             expr = B.ex(case["inf"]["expr"])
+            if case["inf"].get("wrap"):
+                # a non-polynomial constraint: no Bernstein certificate exists, must be rejected
+                expr = {"sin": ca.sin, "exp": ca.exp, "inv": lambda e: 1 / (2 + e * e), "sqrt": lambda e: ca.sqrt(e * e + 1)}[case["inf"]["wrap"]](expr)
             pb = B.S["p"][0]
             ocp.subject_to(expr <= ocp.inf_inert(pb), grid="inf")    # parameters must be declared inert
             R = 30
@@ -193,17 +196,27 @@ def run(tier="quick", seed=0, jobs=16):
         if deg:
             c["method"]["degree"] = deg
         rej.append((c, [gen.gen_point(rng, c)]))
+    for w, kind in (("sin", "MS"), ("exp", "SS"), ("inv", "DC"), ("sqrt", "MS")):
+        c = gen_case(random.Random(seed + 100 + len(rej)))
+        c["method"].update({"kind": kind, "intg": "rk"})
+        if kind == "DC":
+            c["method"]["degree"] = 4
+        c["inf"]["wrap"] = w
+        rej.append((c, [gen.gen_point(rng, c)]))
     with mp.get_context("fork").Pool(len(rej)) as pool:
         rj = pool.map(worker, rej, chunksize=1)
     for (c, pts), r in zip(rej, rj):
         if "error" not in r:
-            dis.append({"property": "C15", "case": c, "points": pts, "finding_key": None,
-                        "what": [{"what": "a grid='inf' constraint was accepted for a scheme without a degree-4 step polynomial"}]})
+            dis.append({"property": "C15", "case": c, "points": pts,
+                        "finding_key": None,
+                        "what": [{"what": "a grid='inf' constraint was accepted although no sufficient condition can be produced "
+                                          "(%s)" % ("non-polynomial expression: " + c["inf"]["wrap"] if c["inf"].get("wrap")
+                                                    else "scheme without a degree-4 step polynomial")}]})
     return {"evaluations": len(items) + len(rej), "distinct_nontrivial": len(nontriv),
             "rule": "random ODEs with 1-2 scalar states x a grid='inf' constraint (affine, quadratic, product of states) with a "
                     "parametric bound x {MS, SS with rk, DC degree 4} x N, M x uniform and geometric grids x fixed / free T, at "
                     "decision points where the bound is set to the largest generated coefficient: refined sample (30 per step) "
-                    "must stay below it; affine rows against the model; euler / low-degree collocation must be rejected.  "
+                    "must stay below it; affine rows against the model; euler / low-degree collocation and non-polynomial expressions (sin, exp, rational, sqrt) must be rejected.  "
                     "distinct by hash of the case",
             "samples": [{"case": items[0][0]}], "disagreements": dis, "distribution": dist, "extra": {}}
 
